@@ -5,7 +5,7 @@ Agreement of the regenerated model with the hand model: the turn transitions of 
 `pass`, `move_piece`, `place`, `take_action` (value and panic behaviour).
 -/
 namespace Arimaa.RsAgree
-open Arimaa Arimaa.Gen Arimaa.Gen.Rs Arimaa.Rt
+open Arimaa Arimaa.Gen Arimaa.Gen.RsBase Arimaa.Rt
 
 theorem pass_eq (s : GameState) : GameState_pass s = Res.guard s.passPanics s.pass := by
   unfold GameState_pass GameState.passPanics GameState.pass
